@@ -219,6 +219,14 @@ def random_case(ctx, rng, part):
             spec[rng.integers(nk), rng.integers(nth)] = rng.integers(1, 5)
     # energy level: exact powers of two down to ranges of 1e-8 (the routine's own "constant spectrum" floor is 1e-9)
     lvl = int(rng.choice([0, 0, 0, 0, -16, -22, -26]))
+    if kind in ("int", "plateau", "sparse") and rng.random() < 0.3:
+        # wave systems riding on a large uniform pedestal: every bin within 1e-6 ... 3e-5 (relative) of the peak, all values
+        # distinct and exactly representable in single precision, the range far above the routine's absolute 1e-9 floor
+        base = float(rng.choice([1.0, 4.0, 1024.0]))
+        spec = (base * (1.0 + spec.astype(np.float64) * 2.0 ** -int(rng.choice([19, 21, 22, 23])))).astype(np.float32)
+        kind += "+pedestal"
+        lvl = 0
+        rec.note("spectra_on_a_large_pedestal")
     spec = np.ascontiguousarray((spec.astype(np.float64) * 2.0 ** lvl).astype(np.float32))
     nk, nth = spec.shape
     szc = "tiny" if nk * nth <= 16 else ("small" if nk * nth <= 144 else "large")
